@@ -378,8 +378,18 @@ func (i *interpreter) fromNativeAny(x any, opaque map[int]value) value {
 		return iface{types.Typ[types.Int64], v}
 	case int32:
 		return iface{types.Typ[types.Int32], v}
+	case int8:
+		return iface{types.Typ[types.Int8], v}
+	case int16:
+		return iface{types.Typ[types.Int16], v}
 	case uint:
 		return iface{types.Typ[types.Uint], v}
+	case uint8:
+		return iface{types.Typ[types.Uint8], v}
+	case uint16:
+		return iface{types.Typ[types.Uint16], v}
+	case uint32:
+		return iface{types.Typ[types.Uint32], v}
 	case uint64:
 		return iface{types.Typ[types.Uint64], v}
 	case float64:
